@@ -56,7 +56,7 @@ FrontRem(st) == IF st.wq = <<>> THEN 0 ELSE ChunkLen(st.wq[1])
 NoSel == [w |-> FALSE, r |-> FALSE, s |-> FALSE, k |-> FALSE]
 St0 == [wq |-> <<>>, started |-> FALSE, sentpay |-> <<>>, paynext |-> <<0, 0>>,
         inflight |-> 0, debt |-> 0, kout |-> 0, wire |-> 0, written |-> 0, dropped |-> 0,
-        wstart |-> 0, wend |-> 0, cHigh |-> 0, wendAtReady |-> 0, lastWakeStart |-> -1, lastWakerRead |-> -1,
+        wstart |-> 0, wend |-> 0, wendMark |-> 0, cHigh |-> 0, wendAtReady |-> 0, lastWakeStart |-> -1, lastWakerRead |-> -1,
         lastWinchRaise |-> -1, lastWinchSeen |-> -1, termsig |-> FALSE,
         pin |-> <<>>, evq |-> <<>>, popped |-> [k |-> "none", id |-> 0], inpoll |-> FALSE, sel |-> NoSel,
         disposed |-> FALSE, restored |-> FALSE, sawCursor |-> FALSE, sawMouse |-> FALSE, err |-> ""]
@@ -87,11 +87,13 @@ Apply(st, e, seq) ==
     [] e.ev = "poll_enter" ->
          IF Len(st.wq) # e.chunks THEN Fail(st, "poll_enter: chunk count differs from model")
          ELSE IF Len(st.evq) # e.evq THEN Fail(st, "poll_enter: event queue length differs from model")
-         ELSE [st EXCEPT !.inpoll = TRUE]
+         ELSE [st EXCEPT !.inpoll = TRUE, !.wendMark = st.wend]
     [] e.ev = "select" ->
          IF e.want_w # (st.wq # <<>>) THEN Fail(st, "select: write interest differs from pending output")
          ELSE IF e.w /\ ~e.want_w THEN Fail(st, "select: writable without interest")
-         ELSE IF ~e.k /\ st.wend > st.cHigh THEN Fail(st, "select: completed wake request not reported readable")
+         \* the event is logged after select returned: only wake requests that had completed when the polling thread
+         \* logged its previous event (poll_enter / loop_end) are certain to precede the system call
+         ELSE IF ~e.k /\ st.wendMark > st.cHigh THEN Fail(st, "select: completed wake request not reported readable")
          ELSE IF e.r /\ st.pin = <<>> THEN Fail(st, "select: tty readable without input")
          ELSE [st EXCEPT !.sel = [w |-> e.w, r |-> e.r, s |-> e.s, k |-> e.k]]
     [] e.ev = "tty_write_start" ->
@@ -123,7 +125,7 @@ Apply(st, e, seq) ==
          ELSE IF e.n = 0 THEN st
          ELSE [st EXCEPT !.evq = @ \o ReadEvents(st.pin, e.n), !.pin = Drop2(@, e.n)]
     [] e.ev = "loop_end" ->
-         IF e.evq # Len(st.evq) THEN Fail(st, "event queue length differs from model at end of loop iteration") ELSE st
+         IF e.evq # Len(st.evq) THEN Fail(st, "event queue length differs from model at end of loop iteration") ELSE [st EXCEPT !.wendMark = st.wend]
     [] e.ev = "poll_exit" ->
          \* the event is popped here; the harness's poll_ret is cross-checked against it
          IF e.chunks # Len(st.wq) THEN Fail(st, "poll_exit: chunk count differs from model")
